@@ -88,6 +88,78 @@ def is_lists_aug_finding(src, feats, b):
     return any(isinstance(n, ast.AugAssign) and isinstance(n.target, ast.Subscript) for n in ast.walk(ast.parse(src)))
 
 
+def lowering_tie(run, rnd, quick):
+    """Model passes (coq/Lower/Passes.v) vs the real break / continue passes: the real pipeline is run with
+    both passes wrapped; input and output trees are exported to the lowering language and Coq checks that
+    the model applied to the real input gives the real output, structurally."""
+    from malt.converters import break_statements, continue_statements
+    from export import lower as lower_mod
+    captured = {}
+    orig_b, orig_c = break_statements.transform, continue_statements.transform
+
+    def wrap_b(node, ctx):
+        ex = lower_mod.Exporter()
+        captured['ex'] = ex
+        try:
+            captured['b0'] = ex.block(ex.body_of(node))
+        except lower_mod.Unsupported as e:
+            captured['err'] = str(e)
+        out = orig_b(node, ctx)
+        try:
+            captured['b1'] = ex.block(ex.body_of(out))
+        except lower_mod.Unsupported as e:
+            captured['err'] = str(e)
+        return out
+
+    def wrap_c(node, ctx):
+        out = orig_c(node, ctx)
+        ex = captured.get('ex')
+        if ex is not None:
+            try:
+                captured['b2'] = ex.block(ex.body_of(out))
+            except lower_mod.Unsupported as e:
+                captured['err'] = str(e)
+        return out
+    n = 150 if quick else 1500
+    opts = progs.Opts(reads='none', try_=False, with_=False, raise_=False, nested_def=False, max_stmts=14, loop_else=True,
+                      tuple_assign=False)
+    srcs = [progs.gen_function(rnd, opts) for _ in range(n)]
+    cases = []
+    meta = []
+    break_statements.transform, continue_statements.transform = wrap_b, wrap_c
+    try:
+        mod = convrun.load_module(srcs, PRELUDE)
+        for i, src in enumerate(srcs):
+            captured.clear()
+            try:
+                convert(getattr(mod, 'f%d' % i), False, None)
+            except Exception:   # noqa  (loop-else is rejected by a later pass; the two passes have run by then)
+                pass
+            if 'err' in captured or not all(k in captured for k in ('b0', 'b1', 'b2')):
+                continue
+            cases.append('(%d, %s, %s, %s)' % (len(meta), captured['b0'], captured['b1'], captured['b2']))
+            meta.append(src)
+            if re.search(r'\b(break|continue)\b', src):
+                run.nontriv('lower:' + src)
+    finally:
+        break_statements.transform, continue_statements.transform = orig_b, orig_c
+    run.count(len(cases))
+    run.extra['lowering_cases'] = len(cases)
+    if not cases:
+        return 'no lowering case could be exported'
+    body = ['From Coq Require Import List Arith Bool.', 'Import ListNotations.',
+            'Require Import MV.Lower.Lang MV.Lower.Passes MV.Lower.PassesCheck.',
+            'Definition cases : list lcase := [', ';\n'.join(cases), '].',
+            'Eval vm_compute in failing_lcases cases.']
+    rc, out = vlib.coq_eval('C01', 'lowering', '\n'.join(body), timeout=600)
+    bad = vlib.parse_coq_list_of_nat(out) if rc == 0 else None
+    if bad is None:
+        return 'model evaluation failed: ' + out[-400:]
+    if bad:
+        return 'model of the break/continue passes and the real passes disagree on %d programs, e.g.\n%s' % (len(bad), meta[bad[0]])
+    return None
+
+
 def check(run):
     quick = run.tier == 'quick'
     run.rule = ('seeded random functions (assign/aug/tuple, if/elif/else, while, for, break/continue/return, raise + '
@@ -103,8 +175,9 @@ def check(run):
         tie_msg = str(e)
         run.note(tie_msg)
     if tie_ok:
-        vlib.standard_proof_step(run, [])
+        vlib.standard_proof_step(run, ['Lower/PassesCheck.vo'])
     rnd = random.Random(run.seed * 104729 + 1)
+    lower_bad = None
     nprog = 120 if quick else 1500
     streams = [
         ('main', progs.Opts(loop_else=False, reads='safe', mutation=True, boolops=True, comprehension=True, global_=True,
@@ -140,6 +213,8 @@ def check(run):
     allsrc = csrcs + srcs
     allkinds = [('corpus', 'm, o' in s.split('\n')[0]) for s in csrcs] + kinds
     try:
+        if tie_ok:
+            lower_bad = lowering_tie(run, rnd, quick)
         mod = convrun.load_module(allsrc, PRELUDE)
         nconv = 0
         for i, src in enumerate(allsrc):
@@ -213,6 +288,10 @@ def check(run):
     if not failures and not tie_ok:
         run.violation('translator no longer recognises PyToPy.transform_ast: ' + tie_msg,
                       {'broken_tie': tie_msg, 'searched': 'differential oracle found no failing input'}, found_input=False)
+    if not failures and lower_bad:
+        run.violation('correspondence between the lowering-pass models and break_statements.py / continue_statements.py broke',
+                      {'broken_correspondence': lower_bad, 'theorems_no_longer_applicable': ['break_lowering_correct', 'continue_lowering_correct'],
+                       'searched': 'differential oracle found no failing input'}, found_input=False)
     run.assumptions += ['CPython 3.12 executes the generated module as the differential oracle',
                         'composition of all passes is validated by differential testing, proved only for the modelled factors (DESIGN.md 4/C01)']
 
